@@ -219,6 +219,9 @@ def stepwise(ctx, k, via="ctor", steps=1):
     tie = Or(*[thresholds[i] == thresholds[j] for i in range(k) for j in range(i + 1, k)]) if k > 1 else False
     zero = Or(*[t == 0 for t in thresholds]) if k else False
     ctx.allow_hash = True  # (low, high) keys are stored, the dict is only ever iterated
+    # another controller with its own rule table lives in the same process: tables are per controller
+    other_rule = Rule("other", None)
+    Stepwise(RecPool(), other_rule, (0.5, other_rule), (5, other_rule), interval=1)
     try:
         if via == "ctor":
             c = Stepwise(p, base, *zip(thresholds, rules), interval=ival)
